@@ -157,6 +157,14 @@ def catalogue(chk, deb, btcc, tap):
     for s in ["", "[", "]", "0x", "()", "a(", "a)", "((", "[[[", "x" * 5000, "0x" + "ab" * 60000, "[" + "1 " * 3000 + "]", "-9223372036854775808", "9223372036854775808"]:
         cli("btcc-token", "btcc", [s])
     cli("btcc-noargs", "btcc", [])
+    # ---- decoders given strings much longer than anything they can return (base58 with and without leading '1's, bech32 beyond 90 characters)
+    for body in ["z" * 250, "z" * 278, "z" * 279, "z" * 300, "z" * 1000, "z" * 5000, "1" * 300, "1" * 150 + "z" * 200, "1" * 204 + "z", "2" * 280, "1" * 5000, "Q" * 400,
+                 "bcrt1" + "q" * 100, "bcrt1" + "q" * 1000, "bc1" + "p" * 5000, "1" + "q" * 300]:
+        for fn in ("base58chkdec", "addr_to_spk", "bech32dec"):
+            cli("long-encoded-string", "btcc", ["%s(%s)" % (fn, body)])
+            cli("long-encoded-string", "btcdeb", [], stdin_data=("[%s(%s) OP_DROP OP_1]" % (fn, body)).encode() + b"\n", stdin_tty=False)
+            if len(body) <= 1000:
+                repl("repl-long-encoded-string", ["0x51"], ["tf " + fn.replace("_", "-").replace("base58chkdec", "base58chk-decode").replace("bech32dec", "bech32-decode").replace("addr-to-spk", "addr-to-scriptpubkey") + " " + body])
     # ---- tokens that end up in diagnostics (printf conversions), in every place a token is read: btcc, script / stack arguments of an interactive
     # btcdeb (the quiet, piped runs print no warnings), exec and tf in a session
     fmt_tokens = ["OP_%n", "OP_%s%s%s%s%s%s%s%s", "x%d%n", "OP_x%5$n", "%n%n%n%n", "OP_%99999999d", "OP_%s", "x%s%s%s%s%s%s", "OP_%1$s%2$s%3$s%4$s%5$s%6$s%7$s%8$s%9$n", "OP_%hhn%hn%ln%lln"]
